@@ -2,7 +2,7 @@ SPECIFICATION Spec
 CONSTANTS
   MaxNodes = 3
   FinishAtMax = FALSE
-  TplFilter = "norec"
+  TplFilter = "core"
   Supplied = TRUE
 INVARIANTS WellFormed StagedEqualsRunSem
 CHECK_DEADLOCK FALSE
